@@ -4,7 +4,8 @@
 (* A column is a dtype tag and a sequence of abstract values:              *)
 (*   numeric   1, 2 (small integers), 3 (zero), 4 (the integral 1e16),     *)
 (*             5 (the fraction 1.5), 6 (negative zero), 7 (-3),            *)
-(*             8 (the large fraction 123456.5), 0 missing                  *)
+(*             8 (the large fraction 123456.5), 9 (the integral 1e19, beyond *)
+(*             the 64-bit integers), 0 missing                             *)
 (*   strings   31, 32, 0 (missing)                                         *)
 (* Result cells are codes: 0 missing; 100 + v the integer form str(int(v)) *)
 (* of value v; 200 + v its float form str(v); 31, 32 the original strings; *)
@@ -20,7 +21,7 @@ CONSTANTS MaxLen
 
 Numeric == {"int", "float"}
 Domain(ct) == CASE ct = "int" -> {1, 2, 3, 7}
-                [] ct = "float" -> {1, 3, 4, 5, 6, 8, 0}
+                [] ct = "float" -> {1, 3, 4, 5, 6, 8, 9, 0}
                 [] OTHER -> {31, 32, 0}
 Columns(ct) == UNION {[1..n -> Domain(ct)] : n \in 0..MaxLen}
 
